@@ -51,9 +51,8 @@ def run(chk):
                 chk.violation("hostile-%s-%s" % (c, pr["id"]),
                               {"curve": c, "program": pr, "observed": {k: row[k] for k in ("pres", "vres", "decode")}, "mismatch": row["bad"],
                                "site": site_of(row)}, "; ".join(row["bad"]))
-    # (B3) the same grid on toy31723: the exact verdict of the specification for every structurally arbitrary proof
-    tprogs = [dict(p, expect_v="", expect_p="") for p in progs]
-    vlib.toy_traces(chk, "toy31723", "host", 0, vlib.flags(V=1), "hostile-verdict", progs=tprogs if not q else tprogs[::2], name="host31723")
+    # (B3) the same grid on toy31723: TLC follows the run and requires that an accepted proof has the shape the statement calls for (IdealShape)
+    vlib.toy_ideal(chk, "toy31723", progs if not q else progs[::2], "TraceIdealShape", "hostile-shape-toy", "host31723")
     # seeded random and guided byte mutations: decode and verify must return values; decode memory stays proportional to the input
     n = 1500 if q else 60000
     shapes = [gates_program(n1, n2, "mut-%d-%d" % (n1, n2), chk.seed) for n1, n2 in ((0, 0), (1, 0), (3, 0), (2, 3), (8, 0))]
